@@ -100,8 +100,8 @@ Qed.
 Lemma sorted_by_filter {A} (f : A -> Z) p l : sorted_by f l -> sorted_by f (filter p l).
 Proof.
   induction l as [|x r IH]; simpl; intros H; [constructor|]. inversion H as [|? ? Hs Hf]; subst.
-  destruct (p x); [constructor|]; auto.
-  rewrite Forall_forall in *. intros y Hy. apply filter_In in Hy. apply Hf. tauto.
+  destruct (p x); [|apply IH; exact Hs]. constructor; [apply IH; exact Hs|].
+  apply Forall_forall. intros y Hy. apply filter_In in Hy. rewrite Forall_forall in Hf. apply Hf. tauto.
 Qed.
 
 Lemma Permutation_filter' {A} (p : A -> bool) l1 l2 : Permutation l1 l2 -> Permutation (filter p l1) (filter p l2).
@@ -243,12 +243,17 @@ Proof. destruct a; simpl; [apply Z.eqb_refl|apply String.eqb_refl]. Qed.
 Lemma labels_eqb_refl l : labels_eqb l l = true.
 Proof. induction l as [|a r IH]; simpl; [reflexivity|]. rewrite label_eqb_refl, IH. reflexivity. Qed.
 
+Lemma from_to_dict_cols idx m : WF_meta (length idx) m ->
+  map (fun ckv : string * list (label * mval) => (fst ckv, map snd (snd ckv))) (to_dict idx m) = m.
+Proof.
+  intros H. unfold to_dict. rewrite map_map. induction H as [|[c vs] r Hc Hr IH]; simpl; [reflexivity|].
+  simpl in Hc. rewrite map_snd_combine by lia. f_equal. apply IH.
+Qed.
+
 Lemma set_info_to_dict idx m : WF_meta (length idx) m -> m <> [] -> set_info idx (to_dict idx m) = Some m.
 Proof.
   intros H Hne. unfold set_info, from_dict.
-  assert (Hm : map (fun ckv : string * list (label * mval) => (fst ckv, map snd (snd ckv))) (to_dict idx m) = m).
-  { unfold to_dict. rewrite map_map. induction H as [|[c vs] r Hc Hr IH]; simpl; [reflexivity|].
-    simpl in Hc. rewrite map_snd_combine by lia. f_equal. apply IH. }
+  pose proof (from_to_dict_cols idx m H) as Hm.
   assert (Hi : forall ckv, In ckv (to_dict idx m) -> map fst (snd ckv) = idx).
   { intros ckv Hin. unfold to_dict in Hin. apply in_map_iff in Hin. destruct Hin as [[c vs] [<- Hin]]. simpl.
     unfold WF_meta in H. rewrite Forall_forall in H. specialize (H _ Hin). simpl in H. apply map_fst_combine. lia. }
@@ -396,3 +401,495 @@ Section RoundTrip.
     rewrite meta_roundtrip by (rewrite Hlen; assumption). reflexivity.
   Qed.
 End RoundTrip.
+
+(* ================================================================================================ *)
+(* 6. TsGroup: flatten / argsort / split by key *)
+
+Definition tag (k : Z) (td : Z * dval) : Z * (dval * Z) := (fst td, (snd td, k)).
+Definition d0 : Z * (dval * Z) := (0, (None, 0)).
+(* samples of one member that tie on time are equal (always true for Ts members) *)
+Definition tie_free (m : member) : Prop :=
+  forall a b, In a (samples m) -> In b (samples m) -> fst a = fst b -> a = b.
+
+Lemma flat_cons k m G : flat ((k, m) :: G) = map (tag k) (samples m) ++ flat G.
+Proof. reflexivity. Qed.
+
+Lemma filter_tag_same k s : filter (fun x => k =? tr_k x) (map (tag k) s) = map (tag k) s.
+Proof. apply filter_all. apply Forall_forall. intros x Hx. apply in_map_iff in Hx. destruct Hx as [td [<- _]]. apply Z.eqb_refl. Qed.
+Lemma filter_tag_other k k' s : k <> k' -> filter (fun x => k =? tr_k x) (map (tag k') s) = [].
+Proof.
+  intros Hn. apply filter_none. apply Forall_forall. intros x Hx. apply in_map_iff in Hx. destruct Hx as [td [<- _]].
+  apply Z.eqb_neq. exact Hn.
+Qed.
+Lemma filter_flat_other k G : Forall (fun km : Z * member => fst km <> k) G -> filter (fun x => k =? tr_k x) (flat G) = [].
+Proof.
+  induction 1 as [|[k' m] r Hk Hr IH]; [reflexivity|]. rewrite flat_cons, filter_app, IH.
+  rewrite filter_tag_other by (simpl in Hk; congruence). reflexivity.
+Qed.
+
+Lemma filter_flat_key G : increasing (map fst G) -> forall k m, In (k, m) G ->
+  filter (fun x => k =? tr_k x) (flat G) = map (tag k) (samples m).
+Proof.
+  induction G as [|[k1 m1] r IH]; intros Hinc k m Hin; [contradiction|].
+  simpl in Hinc. destruct Hinc as [Hlt Hinc]. rewrite flat_cons, filter_app.
+  destruct Hin as [E|Hin].
+  - inversion E; subst. rewrite filter_tag_same, filter_flat_other, app_nil_r; [reflexivity|].
+    rewrite Forall_map in Hlt. eapply Forall_impl; [|exact Hlt]. simpl. intros. lia.
+  - assert (k1 < k).
+    { rewrite Forall_forall in Hlt. apply Hlt. change k with (fst (k, m)). apply in_map. exact Hin. }
+    rewrite filter_tag_other by lia. simpl. apply IH; assumption.
+Qed.
+
+Lemma tie_free_ts t : tie_free (MTs t).
+Proof.
+  intros a b Ha Hb E. simpl in Ha, Hb. apply in_map_iff in Ha, Hb.
+  destruct Ha as [x [<- _]], Hb as [y [<- _]]. simpl in E. subst. reflexivity.
+Qed.
+Lemma tie_free_increasing m : increasing (member_times m) -> tie_free m.
+Proof. intros H. unfold tie_free. apply NoDup_fst_inj. apply increasing_NoDup. exact H. Qed.
+
+Lemma nodupb_increasing l : increasing l -> nodupb l = true.
+Proof.
+  induction l as [|x r IH]; simpl; intros H; [reflexivity|]. destruct H as [H1 H2]. rewrite IH by assumption.
+  replace (existsb (Z.eqb x) r) with false; [reflexivity|]. symmetry.
+  apply not_true_is_false. intros Hex. apply existsb_exists in Hex. destruct Hex as [y [Hy He]].
+  apply Z.eqb_eq in He. subst. rewrite Forall_forall in H1. specialize (H1 _ Hy). lia.
+Qed.
+
+Lemma sort_keys_increasing {A} (G : list (Z * A)) : increasing (map fst G) -> sort_keys G = G.
+Proof.
+  induction G as [|x r IH]; simpl; intros H; [reflexivity|]. destruct H as [H1 H2].
+  unfold sort_keys in *. simpl. rewrite IH by assumption.
+  destruct r as [|y r']; [reflexivity|]. simpl.
+  inversion H1 as [|? ? Hxy _]; subst. replace (fst x <=? fst y) with true; [reflexivity|]. symmetry. apply Z.leb_le. lia.
+Qed.
+
+Lemma sequence_some {A} (l : list A) : sequence (map Some l) = Some l.
+Proof. induction l as [|x r IH]; simpl; [reflexivity|]. rewrite IH. reflexivity. Qed.
+
+(* what the reader does with the arrays, as named functions (so that `load` on a saved group can be stated) *)
+Definition build_ts (sup : iset) (index times : list Z) (k : Z) : option (Z * member) :=
+  Some (k, MTs (ts_t (ctor_ts (mask_select (map (Z.eqb k) index) times) sup))).
+Definition build_tsd (sup : iset) (index times : list Z) (d : list dval) (k : Z) : option (Z * member) :=
+  if negb (length d =? length times)%nat then None else
+  match ctor_rows None (mask_select (map (Z.eqb k) index) times) (mask_select (map (Z.eqb k) index) d) sup with
+  | Some (t', d', _) => Some (k, MTsd (combine t' d'))
+  | None => None end.
+Definition finish (md : mdict) (sup : iset) (keys : list Z) (built : list (option (Z * member))) : option obj :=
+  match sequence built with
+  | None => None
+  | Some mem =>
+      if negb (nodupb keys) then None else
+      let mem := sort_keys mem in
+      match (match md with [] => Some [] | _ :: _ => set_info (map LInt (map fst mem)) md end) with
+      | Some m => Some (OGroup {| g_mem := mem; g_sup := sup; g_meta := m |})
+      | None => None end
+  end.
+
+Lemma load_group_nodata md T I K ss es :
+  load [("type", FStr1 ["TsGroup"]); ("_metadata", FDict md); ("t", FFloat1 T); ("index", FInt1 I);
+        ("keys", FInt1 K); ("start", FFloat1 ss); ("end", FFloat1 es)]
+  = if negb (length T =? length I)%nat then None
+    else finish md (mk_iset ss es) K (map (build_ts (mk_iset ss es) I T) K).
+Proof. destruct md; reflexivity. Qed.
+
+Lemma load_group_data md T I D K ss es :
+  load [("type", FStr1 ["TsGroup"]); ("_metadata", FDict md); ("t", FFloat1 T); ("index", FInt1 I); ("d", FNan1 D);
+        ("keys", FInt1 K); ("start", FFloat1 ss); ("end", FFloat1 es)]
+  = if negb (length T =? length I)%nat then None
+    else finish md (mk_iset ss es) K (map (build_tsd (mk_iset ss es) I T D) K).
+Proof. destruct md; reflexivity. Qed.
+
+Section GroupCore.
+  Variable argsort : list Z -> list nat.
+  Definition sorted_triples (g : group) : list (Z * (dval * Z)) := select d0 (flat (g_mem g)) (g_idx argsort g).
+
+  (* what the round trip needs from the sort: the samples the reader selects for key k are exactly member k's samples,
+     in their order, for every member satisfying [ok] (proved below from np.argsort's contract with ok = tie_free, and
+     for the stable argsort with ok = True) *)
+  Variable ok : member -> Prop.
+  Hypothesis ok_ts : forall t, ok (MTs t).
+  Hypothesis member_filter : forall g k m, increasing (map fst (g_mem g)) -> In (k, m) (g_mem g) ->
+    sortedZ (member_times m) -> ok m ->
+    filter (fun x => k =? tr_k x) (sorted_triples g) = map (tag k) (samples m).
+
+  Lemma g_times_eq g : g_times argsort g = map tr_t (sorted_triples g).
+  Proof. exact (select_map tr_t d0 (flat (g_mem g)) (g_idx argsort g)). Qed.
+  Lemma g_index_eq g : g_index argsort g = map tr_k (sorted_triples g).
+  Proof. exact (select_map tr_k d0 (flat (g_mem g)) (g_idx argsort g)). Qed.
+  Lemma g_data_eq g : g_data argsort g = map tr_d (sorted_triples g).
+  Proof. exact (select_map tr_d d0 (flat (g_mem g)) (g_idx argsort g)). Qed.
+
+  Lemma save_group_eq g : save argsort (OGroup g) =
+    [("type", FStr1 ["TsGroup"]); ("_metadata", FDict (to_dict (map LInt (map fst (g_mem g))) (g_meta g)));
+     ("t", FFloat1 (g_times argsort g)); ("index", FInt1 (g_index argsort g))]
+    ++ (if existsb is_some (map tr_d (flat (g_mem g))) then [("d", FNan1 (g_data argsort g))] else [])
+    ++ [("keys", FInt1 (map fst (g_mem g))); ("start", FFloat1 (map fst (g_sup g))); ("end", FFloat1 (map snd (g_sup g)))].
+  Proof.
+    unfold save. change (table_of (class_name (OGroup g))) with w_TsGroup. unfold w_TsGroup. cbn [flat_map fst snd].
+    change (eval_cond (OGroup g) "not np.all(np.isnan(data))") with (Some (existsb is_some (map tr_d (flat (g_mem g))))).
+    destruct (existsb is_some (map tr_d (flat (g_mem g)))); reflexivity.
+  Qed.
+
+  Lemma member_times_sel g k m : increasing (map fst (g_mem g)) -> In (k, m) (g_mem g) ->
+    sortedZ (member_times m) -> ok m ->
+    mask_select (map (Z.eqb k) (g_index argsort g)) (g_times argsort g) = member_times m.
+  Proof.
+    intros. rewrite g_index_eq, g_times_eq, mask_select_map. rewrite (member_filter g k m) by assumption.
+    unfold member_times. rewrite map_map. reflexivity.
+  Qed.
+  Lemma member_data_sel g k m : increasing (map fst (g_mem g)) -> In (k, m) (g_mem g) ->
+    sortedZ (member_times m) -> ok m ->
+    mask_select (map (Z.eqb k) (g_index argsort g)) (g_data argsort g) = map snd (samples m).
+  Proof.
+    intros. rewrite g_index_eq, g_data_eq, mask_select_map. rewrite (member_filter g k m) by assumption.
+    rewrite map_map. reflexivity.
+  Qed.
+
+  Lemma lengths_eq g : length (g_times argsort g) = length (g_index argsort g)
+                       /\ length (g_data argsort g) = length (g_times argsort g).
+  Proof. unfold g_times, g_index, g_data. rewrite !select_length. split; reflexivity. Qed.
+
+  Lemma finish_ok g built : WF_group_base g -> built = map Some (g_mem g) ->
+    finish (to_dict (map LInt (map fst (g_mem g))) (g_meta g)) (g_sup g) (map fst (g_mem g)) built = Some (OGroup g).
+  Proof.
+    intros (Hinc & Hc & Hmem & Hmeta) ->. unfold finish. rewrite sequence_some.
+    rewrite nodupb_increasing by assumption. simpl negb. cbv iota zeta.
+    rewrite sort_keys_increasing by assumption.
+    rewrite meta_roundtrip by (rewrite !map_length; assumption).
+    destruct g; reflexivity.
+  Qed.
+
+  (* a group whose members are Ts *)
+  Lemma core_group_ts g : WF_group_base g -> all_ts g -> load (save argsort (OGroup g)) = Some (OGroup g).
+  Proof.
+    intros HW Hts. pose proof HW as (Hinc & Hc & Hmem & Hmeta).
+    assert (E : existsb is_some (map tr_d (flat (g_mem g))) = false).
+    { apply not_true_is_false. intros Hex. apply existsb_exists in Hex. destruct Hex as [o [Ho Hs]].
+      apply in_map_iff in Ho. destruct Ho as [x [<- Hx]]. unfold flat in Hx. apply in_flat_map in Hx.
+      destruct Hx as [[k m] [Hkm Hx]]. unfold all_ts in Hts. rewrite Forall_forall in Hts. specialize (Hts _ Hkm).
+      destruct m as [t|s]; [|contradiction]. simpl in Hx. apply in_map_iff in Hx. destruct Hx as [td [<- Htd]].
+      apply in_map_iff in Htd. destruct Htd as [y [<- _]]. discriminate. }
+    rewrite save_group_eq, E. cbn [app]. rewrite load_group_nodata.
+    destruct (lengths_eq g) as [L1 L2]. rewrite L1, Nat.eqb_refl. simpl negb. cbv iota.
+    rewrite mk_iset_id by assumption. apply finish_ok; [assumption|].
+    rewrite map_map. apply map_ext_in. intros [k m] Hin. simpl fst. unfold build_ts.
+    rewrite Forall_forall in Hmem. destruct (Hmem _ Hin) as [Hs Hi]. simpl in Hs, Hi.
+    unfold all_ts in Hts. rewrite Forall_forall in Hts. specialize (Hts _ Hin). destruct m as [t|s]; [|contradiction].
+    rewrite (member_times_sel g k (MTs t)); try assumption; [|apply ok_ts].
+    rewrite ctor_ts_times by assumption. unfold member_times. simpl. rewrite map_map. simpl. rewrite map_id. reflexivity.
+  Qed.
+
+  (* a group whose members are Tsd with finite data, at least one sample, and no repeated timestamp inside a member *)
+  Lemma core_group_tsd g : WF_group_base g -> all_tsd g -> Forall (fun km => ok (snd km)) (g_mem g) ->
+    load (save argsort (OGroup g)) = Some (OGroup g).
+  Proof.
+    intros HW [Hfin Hne] Hdis. pose proof HW as (Hinc & Hc & Hmem & Hmeta).
+    assert (Hall : Forall (fun x => is_some (tr_d x) = true) (flat (g_mem g))).
+    { apply Forall_forall. intros x Hx. unfold flat in Hx. apply in_flat_map in Hx. destruct Hx as [[k m] [Hkm Hx]].
+      rewrite Forall_forall in Hfin. specialize (Hfin _ Hkm). destruct m as [t|s]; [contradiction|].
+      simpl in Hx, Hfin. apply in_map_iff in Hx. destruct Hx as [td [<- Htd]]. rewrite Forall_forall in Hfin. exact (Hfin _ Htd). }
+    assert (E : existsb is_some (map tr_d (flat (g_mem g))) = true).
+    { destruct (flat (g_mem g)) as [|x r]; [contradiction|]. inversion Hall; subst. simpl. rewrite H1. reflexivity. }
+    rewrite save_group_eq, E. cbn [app]. rewrite load_group_data.
+    destruct (lengths_eq g) as [L1 L2]. rewrite L1, Nat.eqb_refl. simpl negb. cbv iota.
+    rewrite mk_iset_id by assumption. apply finish_ok; [assumption|].
+    rewrite map_map. apply map_ext_in. intros [k m] Hin. simpl fst. unfold build_tsd.
+    rewrite L2, Nat.eqb_refl. simpl negb. cbv iota.
+    rewrite Forall_forall in Hmem. destruct (Hmem _ Hin) as [Hs Hi]. simpl in Hs, Hi.
+    rewrite Forall_forall in Hdis. pose proof (Hdis _ Hin) as Hd. simpl in Hd.
+    rewrite Forall_forall in Hfin. pose proof (Hfin _ Hin) as Hf. destruct m as [t|s]; [contradiction|].
+    rewrite (member_times_sel g k (MTsd s)), (member_data_sel g k (MTsd s)); try assumption.
+    destruct (ctor_rows_some None (member_times (MTsd s)) (map snd (samples (MTsd s))) (g_sup g)) as [s' Hs'];
+      try assumption; [unfold member_times; rewrite !map_length; reflexivity|].
+    rewrite Hs'. unfold member_times. simpl. rewrite combine_fst_snd. reflexivity.
+  Qed.
+End GroupCore.
+
+Section GroupRoundTrip.
+  Variable argsort : list Z -> list nat.
+  (* NumPy's contract for np.argsort (any kind): the result is a permutation of the positions that sorts the array *)
+  Hypothesis argsort_perm : forall l, Permutation (argsort l) (seq 0 (length l)).
+  Hypothesis argsort_sorts : forall l, StronglySorted Z.le (select 0 l (argsort l)).
+
+  Lemma sorted_triples_perm g : Permutation (sorted_triples argsort g) (flat (g_mem g)).
+  Proof.
+    unfold sorted_triples, g_idx. apply select_perm.
+    rewrite <- (map_length tr_t (flat (g_mem g))). apply argsort_perm.
+  Qed.
+  Lemma sorted_triples_sorted g : sorted_by tr_t (sorted_triples argsort g).
+  Proof. apply SS_map_inv. rewrite <- g_times_eq. unfold g_times, g_idx. apply argsort_sorts. Qed.
+
+  (* the samples the reader selects for key k are exactly member k's samples, in order *)
+  Lemma member_filter_contract g k m : increasing (map fst (g_mem g)) -> In (k, m) (g_mem g) ->
+    sortedZ (member_times m) -> tie_free m ->
+    filter (fun x => k =? tr_k x) (sorted_triples argsort g) = map (tag k) (samples m).
+  Proof.
+    intros Hinc Hin Hs Htf. apply (sorted_perm_eq tr_t).
+    - apply sorted_by_filter. apply sorted_triples_sorted.
+    - apply sorted_by_map. exact (SS_map_inv fst (samples m) (sortedZ_SS _ Hs)).
+    - rewrite <- (filter_flat_key _ Hinc k m Hin). apply Permutation_filter'. apply sorted_triples_perm.
+    - intros a b Ha Hb E. apply in_map_iff in Ha, Hb. destruct Ha as [a' [<- Ha]], Hb as [b' [<- Hb]].
+      f_equal. apply Htf; assumption.
+  Qed.
+
+  (* a group whose members are Ts *)
+  Theorem roundtrip_group_ts g : WF_group_base g -> all_ts g -> load (save argsort (OGroup g)) = Some (OGroup g).
+  Proof. apply (core_group_ts argsort tie_free tie_free_ts member_filter_contract). Qed.
+
+  (* a group whose members are Tsd with finite data, at least one sample, and no repeated timestamp inside a member *)
+  Theorem roundtrip_group_tsd g : WF_group_base g -> all_tsd g -> distinct_times g ->
+    load (save argsort (OGroup g)) = Some (OGroup g).
+  Proof.
+    intros HW Ht Hd. apply (core_group_tsd argsort tie_free member_filter_contract); try assumption.
+    unfold distinct_times in Hd. eapply Forall_impl; [|exact Hd]. intros km. apply tie_free_increasing.
+  Qed.
+End GroupRoundTrip.
+
+
+(* ================================================================================================ *)
+(* 7. the argsort contract is satisfiable: insertion argsort, with either treatment of ties *)
+
+Lemma sorted_by_SS_map {A} (f : A -> Z) l : sorted_by f l -> StronglySorted Z.le (map f l).
+Proof.
+  induction l as [|x r IH]; simpl; intros H; [constructor|].
+  inversion H as [|? ? Hs Hf]; subst. constructor; [apply IH; exact Hs|]. rewrite Forall_map. exact Hf.
+Qed.
+
+Lemma in_combine_seq {A} (d : A) l : forall s v i, In (v, i) (combine l (seq s (length l))) ->
+  (s <= i)%nat /\ nth (i - s) l d = v.
+Proof.
+  induction l as [|x r IH]; intros s v i Hin; simpl in Hin; [contradiction|].
+  destruct Hin as [E|Hin].
+  - inversion E; subst. rewrite Nat.sub_diag. split; [lia|reflexivity].
+  - destruct (IH _ _ _ Hin) as [Hle Hn]. split; [lia|].
+    replace (i - s)%nat with (S (i - S s)) by lia. simpl. exact Hn.
+Qed.
+
+Section ArgsortInstance.
+  Variable le : Z -> Z -> bool.
+  Hypothesis le_true : forall x y, le x y = true -> x <= y.
+  Hypothesis le_false : forall x y, le x y = false -> y <= x.
+
+  Lemma ins_pair_perm x l : Permutation (ins_pair le x l) (x :: l).
+  Proof.
+    induction l as [|y r IH]; simpl; [apply Permutation_refl|].
+    destruct (le (fst x) (fst y)); [apply Permutation_refl|].
+    eapply Permutation_trans; [apply perm_skip; exact IH|apply perm_swap].
+  Qed.
+  Lemma isort_pairs_perm l : Permutation (isort_pairs le l) l.
+  Proof.
+    induction l as [|x r IH]; simpl; [constructor|].
+    eapply Permutation_trans; [apply ins_pair_perm|apply perm_skip; exact IH].
+  Qed.
+  Lemma ins_pair_sorted x l : sorted_by fst l -> sorted_by fst (ins_pair le x l).
+  Proof.
+    induction l as [|y r IH]; simpl; intros H; [repeat constructor|].
+    inversion H as [|? ? Hs Hf]; subst.
+    destruct (le (fst x) (fst y)) eqn:E.
+    - constructor; [exact H|]. constructor; [apply le_true; exact E|].
+      eapply Forall_impl; [|exact Hf]. simpl. intros a Ha. apply le_true in E. lia.
+    - constructor; [apply IH; exact Hs|].
+      eapply Permutation_Forall; [apply Permutation_sym, ins_pair_perm|].
+      constructor; [apply le_false; exact E|exact Hf].
+  Qed.
+  Lemma isort_pairs_sorted l : sorted_by fst (isort_pairs le l).
+  Proof. induction l as [|x r IH]; simpl; [constructor|]. apply ins_pair_sorted. exact IH. Qed.
+
+  Theorem argsort_with_perm l : Permutation (argsort_with le l) (seq 0 (length l)).
+  Proof.
+    unfold argsort_with.
+    rewrite <- (map_snd_combine l (seq 0 (length l))) at 2 by (rewrite seq_length; reflexivity).
+    apply Permutation_map. apply isort_pairs_perm.
+  Qed.
+  Theorem argsort_with_sorts l : StronglySorted Z.le (select 0 l (argsort_with le l)).
+  Proof.
+    unfold argsort_with, select. rewrite map_map.
+    rewrite (map_ext_in _ fst).
+    - apply sorted_by_SS_map. apply isort_pairs_sorted.
+    - intros [v i] Hin. simpl.
+      assert (Hin' : In (v, i) (combine l (seq 0 (length l)))).
+      { eapply Permutation_in; [apply isort_pairs_perm|exact Hin]. }
+      destruct (in_combine_seq 0 l 0%nat v i Hin') as [_ Hn]. rewrite Nat.sub_0_r in Hn. exact Hn.
+  Qed.
+End ArgsortInstance.
+
+Lemma leb_true x y : (x <=? y) = true -> x <= y.  Proof. intros H. apply Z.leb_le. exact H. Qed.
+Lemma leb_false x y : (x <=? y) = false -> y <= x.  Proof. intros H. apply Z.leb_gt in H. lia. Qed.
+Lemma ltb_true x y : (x <? y) = true -> x <= y.  Proof. intros H. apply Z.ltb_lt in H. lia. Qed.
+Lemma ltb_false x y : (x <? y) = false -> y <= x.  Proof. intros H. apply Z.ltb_ge in H. exact H. Qed.
+
+Theorem stable_argsort_contract :
+  (forall l, Permutation (stable_argsort l) (seq 0 (length l)))
+  /\ (forall l, StronglySorted Z.le (select 0 l (stable_argsort l))).
+Proof. split; intros l; [apply argsort_with_perm|apply argsort_with_sorts]; auto using leb_true, leb_false. Qed.
+Theorem reversing_argsort_contract :
+  (forall l, Permutation (reversing_argsort l) (seq 0 (length l)))
+  /\ (forall l, StronglySorted Z.le (select 0 l (reversing_argsort l))).
+Proof. split; intros l; [apply argsort_with_perm|apply argsort_with_sorts]; auto using ltb_true, ltb_false. Qed.
+
+(* ================================================================================================ *)
+(* 8. where the round trip is false of the faithful model *)
+
+(* (a) repeated timestamps inside a Tsd member: np.argsort's contract does not fix the order of ties, so the rows of
+       the tied samples may come back permuted.  Witness: member 4 = Tsd(t = [0, 0], d = [1, 2]). *)
+Definition dup_group : group :=
+  {| g_mem := [(4, MTsd [(0, Some 1); (0, Some 2)])]; g_sup := [(0, 5)]; g_meta := [] |}.
+
+Theorem tsgroup_duplicate_times_refuted :
+  exists argsort g,
+    (forall l, Permutation (argsort l) (seq 0 (length l)))
+    /\ (forall l, StronglySorted Z.le (select 0 l (argsort l)))
+    /\ WF_group_base g /\ all_tsd g
+    /\ load (save argsort (OGroup g)) = Some (OGroup {| g_mem := [(4, MTsd [(0, Some 2); (0, Some 1)])]; g_sup := [(0, 5)]; g_meta := [] |})
+    /\ load (save argsort (OGroup g)) <> Some (OGroup g).
+Proof.
+  exists reversing_argsort, dup_group. destruct reversing_argsort_contract as [H1 H2].
+  split; [exact H1|]. split; [exact H2|].
+  split; [|split; [|split]].
+  - unfold WF_group_base, dup_group. simpl. repeat split; try lia; repeat constructor; simpl; try lia; try reflexivity.
+  - unfold all_tsd, dup_group. simpl. split; [repeat constructor|discriminate].
+  - vm_compute. reflexivity.
+  - vm_compute. discriminate.
+Qed.
+
+(* (b) a group of Tsd whose members are all empty: `data` is all-NaN (empty), "d" is not written, the reader builds Ts *)
+Definition empty_tsd_group : group :=
+  {| g_mem := [(2, MTsd []); (7, MTsd [])]; g_sup := [(0, 5)]; g_meta := [] |}.
+
+Theorem tsgroup_all_empty_tsd_refuted :
+  WF_group_base empty_tsd_group
+  /\ Forall (fun km => finite_tsd (snd km)) (g_mem empty_tsd_group)
+  /\ load (save stable_argsort (OGroup empty_tsd_group))
+     = Some (OGroup {| g_mem := [(2, MTs []); (7, MTs [])]; g_sup := [(0, 5)]; g_meta := [] |})
+  /\ load (save stable_argsort (OGroup empty_tsd_group)) <> Some (OGroup empty_tsd_group).
+Proof.
+  split; [|split; [|split]].
+  - unfold WF_group_base, empty_tsd_group. simpl. repeat split; try lia; repeat constructor; simpl; try lia.
+  - unfold empty_tsd_group. simpl. repeat constructor.
+  - vm_compute. reflexivity.
+  - vm_compute. discriminate.
+Qed.
+
+(* (c) outside the quantifier (recorded, not claimed): mixed int/str column labels are cast to str on save *)
+Example mixed_labels_not_preserved :
+  cast_cols [LInt 1; LStr "a"] = [LStr "1"; LStr "a"].
+Proof. vm_compute. reflexivity. Qed.
+
+(* ================================================================================================ *)
+(* 9. type detection: every saved object is recognised as its own class by the explicit "type" entry *)
+Theorem detect_save argsort x : detect (save argsort x) = Some (class_name x).
+Proof. destruct x as [a|a|a|a|g|a]; reflexivity. Qed.
+
+(* ================================================================================================ *)
+(* 10. with a STABLE argsort (np.argsort(times, kind="stable")) the Tsd-group round trip holds without the
+       distinct-timestamps condition: this is what the suggested repair of TsGroup.save gives *)
+
+Fixpoint ins_gen {B} (x : Z * B) (l : list (Z * B)) : list (Z * B) :=
+  match l with [] => [x] | y :: r => if fst x <=? fst y then x :: l else y :: ins_gen x r end.
+Definition isort_gen {B} (l : list (Z * B)) : list (Z * B) := fold_right ins_gen [] l.
+Definition on2 {B C} (h : B -> C) (p : Z * B) : Z * C := (fst p, h (snd p)).
+
+Lemma isort_pairs_gen l : isort_pairs Z.leb l = isort_gen l.
+Proof.
+  induction l as [|x r IH]; simpl; [reflexivity|]. rewrite IH. generalize (isort_gen r). clear.
+  induction l as [|y l IH]; simpl; [reflexivity|]. rewrite IH. reflexivity.
+Qed.
+
+Lemma ins_gen_map {B C} (h : B -> C) x l : map (on2 h) (ins_gen x l) = ins_gen (on2 h x) (map (on2 h) l).
+Proof. induction l as [|y r IH]; simpl; [reflexivity|]. destruct (fst x <=? fst y); simpl; [reflexivity|]. rewrite IH. reflexivity. Qed.
+Lemma isort_gen_map {B C} (h : B -> C) l : map (on2 h) (isort_gen l) = isort_gen (map (on2 h) l).
+Proof. induction l as [|x r IH]; simpl; [reflexivity|]. rewrite ins_gen_map, IH. reflexivity. Qed.
+
+Lemma ins_gen_head {B} (x : Z * B) l : Forall (fun y => fst x <= fst y) l -> ins_gen x l = x :: l.
+Proof.
+  destruct l as [|y r]; simpl; intros H; [reflexivity|]. inversion H; subst.
+  replace (fst x <=? fst y) with true; [reflexivity|]. symmetry. apply Z.leb_le. assumption.
+Qed.
+Lemma isort_gen_sorted_id {B} (l : list (Z * B)) : sorted_by fst l -> isort_gen l = l.
+Proof.
+  induction l as [|x r IH]; simpl; intros H; [reflexivity|]. inversion H as [|? ? Hs Hf]; subst.
+  rewrite IH by exact Hs. apply ins_gen_head. exact Hf.
+Qed.
+
+Lemma ins_gen_perm {B} (x : Z * B) l : Permutation (ins_gen x l) (x :: l).
+Proof.
+  induction l as [|y r IH]; simpl; [apply Permutation_refl|].
+  destruct (fst x <=? fst y); [apply Permutation_refl|].
+  eapply Permutation_trans; [apply perm_skip; exact IH|apply perm_swap].
+Qed.
+Lemma ins_gen_sorted {B} (x : Z * B) l : sorted_by fst l -> sorted_by fst (ins_gen x l).
+Proof.
+  induction l as [|y r IH]; simpl; intros H; [repeat constructor|].
+  inversion H as [|? ? Hs Hf]; subst.
+  destruct (fst x <=? fst y) eqn:E.
+  - apply Z.leb_le in E. constructor; [exact H|]. constructor; [exact E|].
+    eapply Forall_impl; [|exact Hf]. simpl. intros a Ha. lia.
+  - apply Z.leb_gt in E. constructor; [apply IH; exact Hs|].
+    eapply Permutation_Forall; [apply Permutation_sym, ins_gen_perm|].
+    constructor; [lia|exact Hf].
+Qed.
+Lemma isort_gen_sorted {B} (l : list (Z * B)) : sorted_by fst (isort_gen l).
+Proof. induction l as [|x r IH]; simpl; [constructor|]. apply ins_gen_sorted. exact IH. Qed.
+
+(* insertion sort commutes with filtering: the selected elements keep their relative order (stability) *)
+Lemma filter_ins_gen {B} (q : Z * B -> bool) x l : sorted_by fst l ->
+  filter q (ins_gen x l) = if q x then ins_gen x (filter q l) else filter q l.
+Proof.
+  induction l as [|y r IH]; intros H.
+  - simpl. destruct (q x); reflexivity.
+  - inversion H as [|? ? Hs Hf]; subst. simpl ins_gen. destruct (fst x <=? fst y) eqn:E.
+    + apply Z.leb_le in E. change (filter q (x :: y :: r)) with (if q x then x :: filter q (y :: r) else filter q (y :: r)).
+      destruct (q x); [|reflexivity]. symmetry. apply ins_gen_head.
+      apply Forall_forall. intros z Hz. apply filter_In in Hz. destruct Hz as [Hz _].
+      destruct Hz as [<-|Hz]; [exact E|]. rewrite Forall_forall in Hf. specialize (Hf _ Hz). simpl in Hf. lia.
+    + simpl filter. rewrite (IH Hs). destruct (q y), (q x); simpl; try reflexivity. rewrite E. reflexivity.
+Qed.
+Lemma filter_isort_gen {B} (q : Z * B -> bool) l : filter q (isort_gen l) = isort_gen (filter q l).
+Proof.
+  induction l as [|x r IH]; simpl; [reflexivity|].
+  rewrite filter_ins_gen by apply isort_gen_sorted. rewrite IH. destruct (q x); reflexivity.
+Qed.
+
+Lemma filter_map_comm {A B} (f : A -> B) (p : B -> bool) l : filter p (map f l) = map f (filter (fun x => p (f x)) l).
+Proof. induction l as [|x r IH]; simpl; [reflexivity|]. destruct (p (f x)); simpl; rewrite IH; reflexivity. Qed.
+
+Definition keyed (x : Z * (dval * Z)) : Z * (Z * (dval * Z)) := (tr_t x, x).
+
+Lemma map_on2_combine {A} (d : A) (fl : list A) (f : A -> Z) : forall ix : list nat,
+  Forall (fun i => (i < length fl)%nat) ix ->
+  map (on2 (fun i => nth i fl d)) (combine (map (fun i => f (nth i fl d)) ix) ix) = map (fun x => (f x, x)) (map (fun i => nth i fl d) ix).
+Proof. induction ix as [|i r IH]; intros H; simpl; [reflexivity|]. inversion H; subst. rewrite IH by assumption. reflexivity. Qed.
+
+Lemma stable_sorted_triples g :
+  sorted_triples stable_argsort g = map snd (isort_gen (map keyed (flat (g_mem g)))).
+Proof.
+  unfold sorted_triples, g_idx, stable_argsort, argsort_with, select. set (fl := flat (g_mem g)).
+  rewrite isort_pairs_gen, map_length.
+  assert (E : map keyed fl = map (on2 (fun i => nth i fl d0)) (combine (map tr_t fl) (seq 0 (length fl)))).
+  { assert (Hts : map tr_t fl = map (fun i => tr_t (nth i fl d0)) (seq 0 (length fl))).
+    { rewrite <- (select_seq_all d0 fl) at 1. unfold select. rewrite map_map. reflexivity. }
+    rewrite Hts. rewrite map_on2_combine.
+    - fold (select d0 fl (seq 0 (length fl))). rewrite select_seq_all. reflexivity.
+    - apply Forall_forall. intros i Hi. apply in_seq in Hi. lia. }
+  rewrite E, <- isort_gen_map, !map_map. apply map_ext. intros [v i]. reflexivity.
+Qed.
+
+Lemma member_filter_stable g k m : increasing (map fst (g_mem g)) -> In (k, m) (g_mem g) ->
+  sortedZ (member_times m) -> True ->
+  filter (fun x => k =? tr_k x) (sorted_triples stable_argsort g) = map (tag k) (samples m).
+Proof.
+  intros Hinc Hin Hs _. rewrite stable_sorted_triples, filter_map_comm, filter_isort_gen.
+  unfold keyed at 1. rewrite (filter_map_comm keyed (fun p => k =? tr_k (snd p))). simpl snd.
+  rewrite (filter_flat_key _ Hinc k m Hin).
+  rewrite isort_gen_sorted_id.
+  - rewrite map_map. simpl. apply map_id.
+  - apply sorted_by_map. apply sorted_by_map. exact (SS_map_inv fst (samples m) (sortedZ_SS _ Hs)).
+Qed.
+
+Theorem roundtrip_group_tsd_stable g : WF_group_base g -> all_tsd g ->
+  load (save stable_argsort (OGroup g)) = Some (OGroup g).
+Proof.
+  intros HW Ht. apply (core_group_tsd stable_argsort (fun _ => True) member_filter_stable); try assumption.
+  apply Forall_forall. intros; exact I.
+Qed.
